@@ -348,6 +348,10 @@ def programs():
     P['seq2'] = C['seq2']
     P['fork2'] = C['fork2']
     P['async_and_sync'] = direct({'a': T(action='async'), 'b': T()})
+    # the task gives up (timeout) before the checker notices the silent
+    # executor: the action itself is still running and must still be failed
+    P['timeout_first'] = direct({'a': T(timeout=2, **{'on-error': ['h']}),
+                                 'h': T()})
     return P
 
 
